@@ -230,8 +230,8 @@ pub fn run_c20(p: &Params) -> Outcome {
     // (a) vector histories, with streams dropped at awkward moments
     let g = GenCfg {
         caps: &[1, 2, 4, 16],
-        min_ops: 5,
-        max_ops: 80,
+        min_ops: if p.san() { 3 } else { 5 },
+        max_ops: if p.san() { 14 } else { 80 },
         maxlen: 10,
         vmax: 6,
         oob: true,
@@ -270,8 +270,8 @@ pub fn run_c20(p: &Params) -> Outcome {
         caps: &[1, 2, 4, 16],
         maxlen: 10,
         vmax: 14,
-        min_ops: 4,
-        max_ops: 40,
+        min_ops: if p.san() { 2 } else { 4 },
+        max_ops: if p.san() { 10 } else { 40 },
         txn_pct: 20,
         param_pct: 20,
         poll_pct: 30,
@@ -298,7 +298,7 @@ pub fn run_c20(p: &Params) -> Outcome {
     out.merge(p.cases(gen_c, p.n(20_000, 500_000), |i, out| {
         let mut rng = Rng::new(mix(seed, mix(hash_of(&gen_c), i)));
         let shared = rng.chance(1, 2);
-        let h: ObsHistory = gen_obs_history(&mut rng, shared, 10, 120);
+        let h: ObsHistory = gen_obs_history(&mut rng, shared, if p.san() { 4 } else { 10 }, if p.san() { 16 } else { 120 });
         let case = json!({"gen": gen_c, "case": i, "seed": seed});
         for asyncfl in [false, true] {
             out.ev.evaluations += 1;
